@@ -327,7 +327,15 @@ func (c *fileCtx) process() bool {
 			}
 			for _, r := range c.cfg.Seams {
 				if r.Callee == p && r.Name == v.Sel.Name && (r.InPkg == "" || strings.HasSuffix(c.pkg.PkgPath, r.InPkg)) {
-					cur.Replace(ast.NewIdent(r.Replace))
+					if i := strings.Index(r.Replace, "."); i > 0 {
+						// "simrt.Name": a function of the simulation runtime with the same signature
+						cur.Replace(sel(r.Replace[:i], r.Replace[i+1:]))
+						if r.Replace[:i] == "simrt" {
+							c.needRT = true
+						}
+					} else {
+						cur.Replace(ast.NewIdent(r.Replace))
+					}
 					c.st.seam++
 					return false
 				}
@@ -409,12 +417,13 @@ func (c *fileCtx) process() bool {
 		if !astutil.UsesImport(c.file, r.Callee) {
 			// the import may have become unused
 			for _, im := range c.file.Imports {
-				if strings.Trim(im.Path.Value, `"`) == r.Callee {
+				if im != nil && im.Path != nil && strings.Trim(im.Path.Value, `"`) == r.Callee {
 					if im.Name != nil {
 						astutil.DeleteNamedImport(c.fset, c.file, im.Name.Name, r.Callee)
 					} else {
 						astutil.DeleteImport(c.fset, c.file, r.Callee)
 					}
+					break
 				}
 			}
 		}
